@@ -602,7 +602,8 @@ func c05_4(c *core.Ctx, p *core.Prog) {
 					return false // results of the splitter are fresh values (C05.1/C05.2 look inside)
 				}
 				if isFieldLoad(v, bi.data) {
-					aliasLoads = append(aliasLoads, v.(ssa.Instruction))
+					// the load itself, not a conversion wrapped around it (which may sit after the buffer was replaced)
+					aliasLoads = append(aliasLoads, core.Strip(v).(ssa.Instruction))
 					return false
 				}
 				return true
@@ -697,6 +698,7 @@ func c05_8(c *core.Ctx, p *core.Prog) {
 			msgs = append(msgs, "after splitting, the item counter is not decreased by exactly the size handed to the splitter")
 		}
 		// returned sent: on the split arm == max; on the whole arm == counter load before zeroing
+		sawMax, sawCounter := false, false
 		for _, r := range core.Returns(fn) {
 			var edges []ssa.Value
 			if ph, ok := r.Results[0].(*ssa.Phi); ok {
@@ -704,7 +706,6 @@ func c05_8(c *core.Ctx, p *core.Prog) {
 			} else {
 				edges = []ssa.Value{r.Results[0]}
 			}
-			sawMax, sawCounter := false, false
 			for _, e := range edges {
 				switch {
 				case core.StripConv(e) == ssa.Value(maxP):
@@ -728,9 +729,19 @@ func c05_8(c *core.Ctx, p *core.Prog) {
 					msgs = append(msgs, fmt.Sprintf("reported batch size %s is neither the max-size parameter nor the item counter", e.Name()))
 				}
 			}
-			if !sawMax || !sawCounter {
-				msgs = append(msgs, "expected the reported size to be max on the split arm and the counter on the whole-batch arm")
+			// a return of its own for each arm (early-return form): the one after the split reports max, the other the counter
+			if _, isPhi := r.Results[0].(*ssa.Phi); !isPhi {
+				onSplit := core.Reachable(fn, split, r)
+				if onSplit && core.StripConv(r.Results[0]) != ssa.Value(maxP) {
+					msgs = append(msgs, "the return of the split arm does not report the max-size parameter")
+				}
+				if !onSplit && !isFieldLoad(r.Results[0], bi.counter) {
+					msgs = append(msgs, "the return of the whole-batch arm does not report the item counter")
+				}
 			}
+		}
+		if !sawMax || !sawCounter {
+			msgs = append(msgs, "expected the reported size to be max on the split arm and the counter on the whole-batch arm")
 		}
 		c.Check(len(msgs) == 0, key, pos, core.FuncName(fn), "splitter size, counter decrement and reported size are one value; whole-batch size is the counter before zeroing", strings.Join(msgs, "; "))
 	}
